@@ -373,6 +373,11 @@ fn drive_api<T: Input>(p: Parser<T>, api: Api) -> Obs {
     }
 }
 
+/// `observe` on StrInput with `keep_tags(true)` set on the parser.
+pub fn observe_keep_tags(s: &str, api: Api) -> Result<Obs, String> {
+    catch_unwind(AssertUnwindSafe(|| drive_api(Parser::new_from_str(s).keep_tags(true), api))).map_err(panic_msg)
+}
+
 /// Runs the parser over `s` with the given back-end and API; a panic is returned as Err(message).
 pub fn observe(s: &str, b: Backend, api: Api) -> Result<Obs, String> {
     let r = catch_unwind(AssertUnwindSafe(|| match b {
